@@ -113,7 +113,10 @@ impl PreflateTokenBlock {
     pub fn add_literal(&mut self, lit: u8) {
         self.tokens.push(PreflateToken::Literal(lit));
         if self.block_type == BlockType::DynamicHuff {
-            self.freq.literal_codes[lit as usize] += 1;
+            // the counters are 16 bit and wrap for blocks with more than 65535 occurrences of a
+            // symbol (both the analysis and the reconstruction count the same way)
+            let f = &mut self.freq.literal_codes[lit as usize];
+            *f = f.wrapping_add(1);
         }
     }
 
@@ -122,8 +125,10 @@ impl PreflateTokenBlock {
             .push(PreflateToken::new_reference(len, dist, irregular258));
 
         if self.block_type == BlockType::DynamicHuff {
-            self.freq.literal_codes[NONLEN_CODE_COUNT + quantize_length(len)] += 1;
-            self.freq.distance_codes[quantize_distance(dist)] += 1;
+            let f = &mut self.freq.literal_codes[NONLEN_CODE_COUNT + quantize_length(len)];
+            *f = f.wrapping_add(1);
+            let f = &mut self.freq.distance_codes[quantize_distance(dist)];
+            *f = f.wrapping_add(1);
         }
     }
 }
